@@ -1,5 +1,6 @@
 import StepModel.P21.ReaderLemmas13
 import StepModel.P21.ReaderLemmas15
+import StepModel.P21.ReaderLemmas16
 import StepModel.Generated.P21RWGen
 /-! # C03 — the reader never reports a violating file as clean: property theorems
 
@@ -1066,6 +1067,66 @@ theorem C03_skipped_record_confined_partial {F} (ops : FloatOps F) (lex : LexCfg
     · exact Int.lt_of_le_of_lt (greater_le_left _ _) (hbad _)
     · exact hbad _
 
+/-- **duplicate ids at file level** (`_partial`): `C03_skipped_record_confined_partial` with the id discipline `WfD` in place of
+    "pairwise different ids": a record flagged `false` either has an id no created record has and an unknown or abstract
+    keyword - or **repeats the id of a record created earlier in the file, whatever its keyword and parameters are** (any
+    tokens `SkipInstance` gets over).  Pass 1 counts every such record not created, pass 2 skips it (the first record with
+    that id has been read by then) and counts it invalid; every other record is read to the outcome it has on its own, the
+    manager holds exactly the created instances - the first record with an id wins -, and one skipped record gives exit 1. -/
+theorem C03_duplicate_id_confined_partial {F} (ops : FloatOps F) (lex : LexCfg) (cfg : RWCfg) (d : Dict) (strict : Bool)
+    (hskip : cfg.skipInstanceSkipsComments = true) (hrs : cfg.errorResyncsFromStart = true)
+    (xs : List (Step F × Bool)) (g0 sp gE after : List Byte) (hg0 : Seps g0) (hsp : sp.all isSpace = true) (hgE : Seps gE)
+    (hwf : WfD d [] xs)
+    (h1 : ∀ x ∈ xs, if x.2 then Rec1OK d x.1.rg else SkipBase x.1)
+    (h2 : ∀ x ∈ xs, x.2 = true →
+      Marked { ops := ops, lex := lex, cfg := cfg, dict := d,
+               lookup := Mgr.lookup d ({ insts := (kept xs).map (fun x => mkInst d x.rg) } : Mgr F) } strict x.1 ∨
+      Flawed { ops := ops, lex := lex, cfg := cfg, dict := d,
+               lookup := Mgr.lookup d ({ insts := (kept xs).map (fun x => mkInst d x.rg) } : Mgr F) } strict x.1) :
+    ∃ res, readDataSection ops lex cfg d strict false
+        (g0 ++ renderRecs (recsOfX xs) (endsec sp (gE ++ (endIso ++ 59 :: after)))) = .ok res ∧
+      res.mgr.insts = (kept xs).map (·.out) ∧ res.reported = ((kept xs).map (·.sev)).reverse ∧
+      res.created = (kept xs).length ∧ res.notCreated = nskip xs ∧ res.valid = (kept xs).length ∧ res.invalid = nskip xs ∧
+      (0 < nskip xs → exitStatus res.sev = 1) ∧
+      ((∃ x ∈ kept xs, x.sev.toInt < Sev.usermsg.toInt) → exitStatus res.sev = 1) := by
+  obtain ⟨res, hr, hm, hsev, hc, hnc, hv, hinv, hrep⟩ :=
+    readDataSection_dups ops lex cfg hskip d strict sp _ hsp (tailOK_endIso gE hgE after) xs g0 hg0 hwf h1
+      (by
+        intro xb hxb
+        obtain ⟨x, b⟩ := xb
+        cases b with
+        | false => simpa [Step2D] using h1 (x, false) hxb
+        | true =>
+          simp only [Step2D, if_true]
+          rcases h2 (x, true) hxb rfl with ⟨hlex, hg, hscan, qs, e, hqs, hpar, hent, hattrs, hsv, hout⟩ | ⟨hlex, hg, hscan, hle, e, vals, hent, hout, hrd⟩
+          · refine ⟨⟨hg, by rw [hout], by rw [hout]; rfl, ?_⟩, by rw [hout]; cases x.sev <;> simp [stateOf]⟩
+            intro st l rest hfind hlk hs
+            obtain ⟨l', h⟩ := readInstance_params ops lex cfg d strict hskip st x.r hlex qs hqs
+              (by intro q hq; rw [hlk]; exact hpar q hq) hscan l rest hs (mkInst d x.rg) hfind rfl rfl
+              { name := x.r.name, vals := match d.entity? x.r.name with | some e => defaults e.attrs | none => [] } rfl e hent hattrs
+            refine ⟨l', ?_⟩
+            rw [h, hout, hsv]
+            rfl
+          · refine ⟨⟨hg, by rw [hout], by rw [hout]; rfl, ?_⟩, by rw [hout]; simp⟩
+            intro st l rest hfind hlk hs
+            obtain ⟨l', h⟩ := C03_error_resync_confines ops lex cfg d strict hrs hskip st x.r hlex hscan l rest false hs
+              (mkInst d x.rg) hfind rfl rfl
+              { name := x.r.name, vals := match d.entity? x.r.name with | some e => defaults e.attrs | none => [] } rfl e hent
+              x.sev vals (by intro L; rw [hlk]; exact hrd L rest) hle
+            refine ⟨l', ?_⟩
+            rw [h, hout]
+            rfl)
+  refine ⟨res, hr, hm, hrep, hc, hnc, hv, hinv, ?_, ?_⟩
+  · intro hpos
+    rw [C03_exit_iff_worse_than_usermsg, hsev, if_pos hpos]
+    exact Int.lt_of_le_of_lt (greater_le_right _ _) (by decide)
+  · rintro ⟨x, hx, hb⟩
+    rw [C03_exit_iff_worse_than_usermsg, hsev]
+    have hbad := errAfter_bad (kept xs) x hx hb
+    split
+    · exact Int.lt_of_le_of_lt (greater_le_left _ _) (hbad _)
+    · exact hbad _
+
 /-! ### which reader flags which violation: the classes for which the model makes it tractable.  Each statement is a
     `ParamRd`: the parameter is read *wherever it stands in a file*, in any layout, with the stated severity, the
     stream rests at the delimiter (so the parameters after it are read as if nothing had happened), and by
@@ -1720,6 +1781,54 @@ theorem C03_stray_slash_dropped_witness :
     WARNING is ignored, the record reads as `#1=A(5);` -/
 theorem C03_stray_backslash_dropped_witness :
     strayRun "#1=A(\\N 5);ENDSEC;END-ISO-10303-21;" = (0, [Sev.null], [.one (.atom (.int 5))]) := by decide
+
+/-- the hypotheses of `C03_duplicate_id_confined_partial` on `#2=A(5);⏎#2=A(X);⏎`: the second record repeats the id; the file
+    fails (exit 1), the manager holds the first record's instance only -/
+def wDup : Step Nat := { wBad with r := { wBad.r with ds := [50] } }
+
+theorem C03_duplicate_id_witness :
+    ∃ res, readDataSection dblOps Generated.rwLexCfg Generated.rwCfg exDict false false
+        ([10] ++ renderRecs (recsOfX [(wGood, true), (wDup, false)]) (endsec [] ([10] ++ (endIso ++ 59 :: [10])))) = .ok res ∧
+      res.mgr.insts = [wGood.out] ∧ res.notCreated = 1 ∧ res.invalid = 1 ∧ exitStatus res.sev = 1 := by
+  have sepsNil : Seps ([] : List Byte) := Seps.blanks [] (by decide)
+  have sepsNl : Seps ([10] : List Byte) := Seps.blanks [10] (by decide)
+  have hlexG : wGood.r.Lex := ⟨by decide, by decide, by decide, sepsNil, sepsNil, sepsNil, sepsNil, by decide, by decide, by decide⟩
+  have hlexD : wDup.r.Lex := ⟨by decide, by decide, by decide, sepsNil, sepsNil, sepsNil, sepsNil, by decide, by decide, by decide⟩
+  have hscanG : ∀ q ∈ wGood.r.ps, ParamScan q := by
+    intro q hq
+    simp only [wGood, List.mem_singleton] at hq
+    subst hq
+    exact ⟨(Passes.plain 53 (by decide)).toS, sepsNil, sepsNil⟩
+  have hscanD : ∀ q ∈ wDup.r.ps, ParamScan q := by
+    intro q hq
+    simp only [wDup, wBad, List.mem_singleton] at hq
+    subst hq
+    exact ⟨(Passes.plain 88 (by decide)).toS, sepsNil, sepsNil⟩
+  have hent : exDict.entity? "A" = some { name := "A", attrs := [wAttrX], ancestors := ["A"] } := by decide
+  obtain ⟨res, hr, hm, _, _, hnc, _, hinv, hex, _⟩ := C03_duplicate_id_confined_partial dblOps Generated.rwLexCfg Generated.rwCfg exDict false
+    (by decide) (by decide) [(wGood, true), (wDup, false)] [10] [] [10] [10] sepsNl (by decide) sepsNl
+    (by
+      refine ⟨by decide, ⟨Or.inl (by decide), trivial⟩⟩)
+    (by
+      intro x hx
+      simp only [List.mem_cons, List.not_mem_nil, or_false] at hx
+      rcases hx with rfl | rfl
+      · exact ⟨hlexG, sepsNl, hscanG, _, hent, rfl⟩
+      · exact ⟨hlexD, sepsNl, hscanD⟩)
+    (by
+      intro x hx hb
+      simp only [List.mem_cons, List.not_mem_nil, or_false] at hx
+      rcases hx with rfl | rfl
+      · refine Or.inl ⟨hlexG, sepsNl, hscanG,
+          [(({ a := wAttrX, v := .one (.atom (.int (Grammar.denoteInteger [53]))), tok := [53], before := [], after := [] } : Param Nat), Sev.null)],
+          _, rfl, ?_, hent, rfl, rfl, rfl⟩
+        intro q hq
+        simp only [List.mem_singleton] at hq
+        subst hq
+        refine ⟨rfl, ⟨53, [], rfl, by decide, by decide, by decide⟩, sepsNil, fun l sk d rest hd => ⟨sk, Or.inl rfl, ?_⟩⟩
+        exact attr_integer _ false wAttrX rfl rfl (by decide) [53] (by decide) (by decide) (by decide) l sk [] sepsNil d rest hd
+      · cases hb)
+  exact ⟨res, hr, by simpa [kept] using hm, by simpa [nskip] using hnc, by simpa [nskip] using hinv, hex (by simp [nskip])⟩
 
 /-! ### the defect behind fixes/C03-4 and its repair on the minimal input `#1=A($1);` (lenient mode) -/
 def dollarRun (keep : Bool) : M (FileResult Nat) :=
